@@ -56,11 +56,7 @@ Definition checkS (c : case_t) : bool :=
       else true
   end.
 
-Definition region (c : case_t) : nat :=
-  match w_t (c_w c) with
-  | Some _ => if (1 <? cnt_of (g_nt (c_g c)) (w_t (c_w c))) && (86400 <=? sec_of_hhmmss (g_tstep (c_g c)))
-              then 1%nat else 0%nat
-  | None => 0%nat
-  end.
+(* no known-defect region left (the >= 24 h step defect is repaired) *)
+Definition region (c : case_t) : nat := 0%nat.
 
 Definition check (c : case_t) : verdict := (checkF c, checkS c, region c).
